@@ -53,6 +53,37 @@ static size_t str(size_t i)
     /* every escape must end before the closing quote: re-check that no escape straddled it */
     return i + 1;
 }
+
+/* reference decoding of a string literal starting at B[i] (already recognised as well formed): bytes it denotes, UTF-8 for \uXXXX (RFC 8259 section 7) */
+static size_t ref_decode(size_t i, unsigned char *out)
+{
+    size_t o = 0;
+    i++;
+    while (i < N && B[i] != '"')
+    {
+        if (B[i] != '\\') { out[o++] = B[i++]; continue; }
+        switch (B[i + 1])
+        {
+            case 'b': out[o++] = '\b'; i += 2; break;
+            case 'f': out[o++] = '\f'; i += 2; break;
+            case 'n': out[o++] = '\n'; i += 2; break;
+            case 'r': out[o++] = '\r'; i += 2; break;
+            case 't': out[o++] = '\t'; i += 2; break;
+            case 'u':
+            {
+                unsigned long cp = hv(B + i + 2); i += 6;
+                if (cp >= 0xD800 && cp <= 0xDBFF) { unsigned c2 = hv(B + i + 2); cp = 0x10000 + (((cp & 0x3FF) << 10) | (c2 & 0x3FF)); i += 6; }
+                if (cp < 0x80) out[o++] = (unsigned char)cp;
+                else if (cp < 0x800) { out[o++] = (unsigned char)(0xC0 | (cp >> 6)); out[o++] = (unsigned char)(0x80 | (cp & 0x3F)); }
+                else if (cp < 0x10000) { out[o++] = (unsigned char)(0xE0 | (cp >> 12)); out[o++] = (unsigned char)(0x80 | ((cp >> 6) & 0x3F)); out[o++] = (unsigned char)(0x80 | (cp & 0x3F)); }
+                else { out[o++] = (unsigned char)(0xF0 | (cp >> 18)); out[o++] = (unsigned char)(0x80 | ((cp >> 12) & 0x3F)); out[o++] = (unsigned char)(0x80 | ((cp >> 6) & 0x3F)); out[o++] = (unsigned char)(0x80 | (cp & 0x3F)); }
+                break;
+            }
+            default: out[o++] = B[i + 1]; i += 2; break;   /* \" \\ \/ */
+        }
+    }
+    return o;
+}
 static size_t num(size_t i)
 {   /* lenient number: what strtod accepts over [0-9+-eE.] starting with '-' or a digit, at most 63 bytes */
     size_t s = i, e = i, k; int st = 0;
@@ -156,6 +187,13 @@ int main(int argc, char **argv)
             if (!(e < n && allws && buf[n - 1] == 0)) ok = (e < n && allws) ? -1 : ((e >= n) ? 0 : (allws ? -1 : 0));
         }
         if (ok == 1 && t == NULL) { printf("C02: acceptable text rejected\n"); fails++; }
+        if (ok == 1 && t != NULL && s < n && buf[s] == '"' && cJSON_IsString(t) && t->valuestring != NULL)
+        {   /* a top-level string: the decoded bytes must be exactly what the literal denotes (no \u0000 in an input with verdict 1) */
+            unsigned char *ref = malloc(n + 4); size_t rl = ref_decode(s, ref);
+            if (memchr(ref, 0, rl) == NULL && (strlen(t->valuestring) != rl || memcmp(t->valuestring, ref, rl) != 0))
+            { size_t q; printf("C02: string decoded to"); for (q = 0; t->valuestring[q]; q++) printf(" %02X", (unsigned char)t->valuestring[q]); printf(" expected"); for (q = 0; q < rl; q++) printf(" %02X", ref[q]); printf("\n"); fails++; }
+            free(ref);
+        }
         if (ok == 0 && t != NULL) { printf("C03: malformed text accepted\n"); fails++; }
     }
     if (t) { char *txt = cJSON_PrintUnformatted(t); if (!txt) { printf("C01: accepted tree cannot be printed\n"); fails++; } cJSON_free(txt); cJSON_Delete(t); if (live != 0) { printf("C07: %ld block(s) left after deleting the tree\n", live); fails++; } }
